@@ -1093,6 +1093,17 @@ pub fn after_step<P: Pid>(m: &mut Mdl, pre_m: &Mdl, pre: &VerifState, post: &Ver
     if !real_store.is_empty() {
         r.label("c06.store-nonempty");
     }
+    // C14: once the session has been resumed under the peer's limit, no oversize packet is left in the store
+    // (each one was dropped with its identifier released)
+    if m.st == St::Connected && m.ver == Some(Ver::V5) {
+        if let Some(l) = m.link.peer_mps {
+            for b in &post.store {
+                if b.len() as u64 > l as u64 && calls.iter().any(|c| c.sends().iter().any(|a| matches!(a, AP::Connack { .. })) || matches!(&c.kind, CallKind::Recv { ap: Some(AP::Connack { .. }), .. })) {
+                    r.viol("c14.oversize-left-in-store", pre_m, format!("after the CONNACK a stored packet of {} bytes is still in the store although the peer's Maximum Packet Size is {}: {}", b.len(), l, crate::util::hex_trunc(b, 24)));
+                }
+            }
+        }
+    }
     // stored ids are in use
     let in_use: BTreeSet<u32> = crate::conn::in_use_ids(&post.pid_free, if w == 2 { 65535 } else { u32::MAX as u64 }).into_iter().map(|x| x as u32).collect();
     for v in &real_view {
